@@ -210,7 +210,11 @@ impl Network {
             .node(service_trip)
             .as_service_trip()
             .maximal_formation_count();
-        limit_of_type.map(|l| l.min(limit_of_node.unwrap_or(l)))
+        match (limit_of_type, limit_of_node) {
+            (Some(t), Some(n)) => Some(t.min(n)),
+            (t, None) => t,
+            (None, n) => n,
+        }
     }
 
     pub fn get_depot_idx(&self, node_idx: NodeIdx) -> DepotIdx {
